@@ -54,7 +54,7 @@ def check_loop(chk, inst, res, where, *, jaxpr=P("jaxpr"), eqns=None, const_wrap
         kind = None
         if is_mcall(leaf, "bind") and leaf[1][1] == prim:
             kind = "bind"
-        elif is_mcall(leaf, "dispatch"):
+        elif is_mcall(leaf, "dispatch") and any(is_t(c, "call") and is_t(c[1], "attr") and c[1][2] == "handles" and c[1][1] == leaf[1][1] or (is_t(c, "bool") and any(is_t(y, "call") and is_t(y[1], "attr") and y[1][2] == "handles" and y[1][1] == leaf[1][1] for y in c[2])) for c, pol in conds if pol):
             kind = "dispatch"
         elif is_call(leaf, "default_propagation_rule"):
             kind = "rule"
